@@ -12,4 +12,5 @@ for id in "$@"; do
   VERIF_REPO_DIR="$tmp" ./check "$id" 2>&1 | grep -E "^(VIOLATION|KNOWN-FINDING|C[0-9]+ (ok|FAIL))" || true
 done
 h=$(python3 -c "import hashlib,sys;print(hashlib.sha1(sys.argv[1].encode()).hexdigest()[:10])" "$tmp")
+rm -rf /tmp/mutant_last_replays; cp -r /tmp/verif_work_$h/replays /tmp/mutant_last_replays 2>/dev/null || true
 rm -rf "$tmp" /tmp/verif_harness_$h /tmp/verif_work_$h /tmp/verif_coq_$h
